@@ -142,11 +142,12 @@ inductive Region where
   | F_star_noline    -- `-type=*` without a matching go:generate line: `.shoot<cmd>.go`
   | F_nonpkg_type    -- a function-local type / a predeclared type with typed constants is listed or accepted by name: output for a type that is not a type of the package
   | F_star_sep       -- `-type=* -sep`: every type gets the go:generate file's prefix (or none)
+  | F_case_collision -- two selected types whose names differ only in letter case share ONE per-type file: the earlier one's output is lost
   deriving DecidableEq, Repr
 
 def Region.str : Region → String
   | .WF => "WF" | .Out => "Out" | .F_star_noline => "F_star_noline"
-  | .F_star_sep => "F_star_sep" | .F_nonpkg_type => "F_nonpkg_type"
+  | .F_star_sep => "F_star_sep" | .F_nonpkg_type => "F_nonpkg_type" | .F_case_collision => "F_case_collision"
 
 def noLocals : List Decl → Bool
   | [] => true
@@ -180,6 +181,13 @@ def validPkg (pkg : Pkg) : Bool :=
     && pkg.all (fun f => noLocals f.decls && constsValid f.decls && endsGo f.name)
     && constTypesOK pkg
     && !((declared pkg).map (·.2.name)).contains ""          -- identifiers are not empty
+
+/-- `validPkg` without the clause "no two type names collide after lower-casing" (legal Go: `HTTPState` next to `HttpState`) -/
+def validPkgNoComp (pkg : Pkg) : Bool :=
+  (pkg.map File.name).Nodup && ((declared pkg).map (·.2.name)).Nodup
+    && pkg.all (fun f => noLocals f.decls && constsValid f.decls && endsGo f.name)
+    && constTypesOK pkg
+    && !((declared pkg).map (·.2.name)).contains ""
 
 /-- enum: MakeData stops with a diagnostic for this name -/
 def enumFatal (pkg : Pkg) (n : String) : Bool :=
@@ -240,14 +248,14 @@ def stripDecl : Decl → Decl
 def stripNew (pkg : Pkg) : Pkg := pkg.map (fun f => { f with decls := f.decls.map stripDecl })
 
 /-- a function-local type declaration the walks of sub-command `cmd` (which, except for `new`, DO enter function bodies) pass by
-    without any effect: `rest` only ever looks at interface types, `map` at struct types, `enum` at types with a basic underlying
-    type and at aliases (and, for a name no TypeSpec carries, at the predeclared non-integer types) -/
+    without any effect: `rest` only ever looks at interface types, `map` at struct types, `enum`'s ListTypes
+    at types whose underlying type is one of the four listed integer kinds -/
 def harmless (cmd : Cmd) (t : TSpec) : Bool :=
   match cmd with
   | .new => true
   | .rest => (match t.shape with | .iface _ => false | _ => true)
   | .map => t.shape != .struct
-  | .enum => t.under.isNone && !t.alias && !predeclNonInt t.name
+  | .enum => (match t.under with | some k => !k.listed | none => true)   -- (makeStr passes function bodies by since /repo 17b8707)
 
 def localsHarmless (cmd : Cmd) : List Decl → Bool
   | [] => true
@@ -278,6 +286,12 @@ def region (cmd : Cmd) (pkg : Pkg) (fl : Flags) : Region :=
     -- (= the code) then misses the specification it is this finding, elsewhere the input stays advisory
     match spec cmd pkg fl with
     | some s => if meets (run cmd pkg fl) s then .Out else .F_nonpkg_type
+    | none => .Out
+  else if validPkgNoComp pkg then
+    -- only type names that differ in letter case alone keep the package out of `validPkg`: where the per-type files of two
+    -- selected types then coincide the model (= the code) misses the specification, elsewhere the input stays advisory
+    match spec cmd pkg fl with
+    | some s => if meets (run cmd pkg fl) s then .Out else .F_case_collision
     | none => .Out
   else .Out
 
